@@ -96,7 +96,7 @@ impl Server {
     fn handle_setnx(&mut self, parts: &[RespFrame], db: usize) -> (r: Result<RespFrame>)
         ensures
             (parts@.len() != 3 || arg(parts@, 1) is None || arg(parts@, 2) is None) ==> refused(r, *old(self), *final(self)),
-            parts@.len() == 3 && arg(parts@, 1) is Some && arg(parts@, 2) is Some && r is Ok ==> ({
+            parts@.len() == 3 && arg(parts@, 1) is Some && arg(parts@, 2) is Some && (r is Ok || !mem_exhausted(old(self).storage)) ==> ({
                 let k = arg(parts@, 1)->Some_0; let v = arg(parts@, 2)->Some_0;
                 if old(self).storage.ds@.contains_key((db as int, k)) { done(r, *final(self), (RV::Int(0), old(self).storage.ds@), old(self).storage.ttl@) }
                 else { done(r, *final(self), (RV::Int(1), old(self).storage.ds@.insert((db as int, k), DV::Str(v))), old(self).storage.ttl@.remove((db as int, k))) }
@@ -112,7 +112,7 @@ impl Server {
         ensures
             // malformed, or an expire time that is not a positive integer: refused
             (parts@.len() != 4 || arg(parts@, 1) is None || num_arg::<u64>(parts@, 2) is None || num_arg::<u64>(parts@, 2) == Some(0u64) || arg(parts@, 3) is None) ==> refused(r, *old(self), *final(self)),
-            parts@.len() == 4 && arg(parts@, 1) is Some && num_arg::<u64>(parts@, 2) is Some && num_arg::<u64>(parts@, 2) != Some(0u64) && arg(parts@, 3) is Some && r is Ok ==> ({
+            parts@.len() == 4 && arg(parts@, 1) is Some && num_arg::<u64>(parts@, 2) is Some && num_arg::<u64>(parts@, 2) != Some(0u64) && arg(parts@, 3) is Some && (r is Ok || !mem_exhausted(old(self).storage)) ==> ({
                 let k = arg(parts@, 1)->Some_0; let v = arg(parts@, 3)->Some_0;
                 done(r, *final(self), (RV::Okay, old(self).storage.ds@.insert((db as int, k), DV::Str(v))), old(self).storage.ttl@.insert((db as int, k), num_arg::<u64>(parts@, 2)->Some_0 as int * 1_000_000_000))
             }),
@@ -127,7 +127,7 @@ impl Server {
         ensures
             // malformed, or an expire time that is not a positive integer: refused
             (parts@.len() != 4 || arg(parts@, 1) is None || num_arg::<u64>(parts@, 2) is None || num_arg::<u64>(parts@, 2) == Some(0u64) || arg(parts@, 3) is None) ==> refused(r, *old(self), *final(self)),
-            parts@.len() == 4 && arg(parts@, 1) is Some && num_arg::<u64>(parts@, 2) is Some && num_arg::<u64>(parts@, 2) != Some(0u64) && arg(parts@, 3) is Some && r is Ok ==> ({
+            parts@.len() == 4 && arg(parts@, 1) is Some && num_arg::<u64>(parts@, 2) is Some && num_arg::<u64>(parts@, 2) != Some(0u64) && arg(parts@, 3) is Some && (r is Ok || !mem_exhausted(old(self).storage)) ==> ({
                 let k = arg(parts@, 1)->Some_0; let v = arg(parts@, 3)->Some_0;
                 done(r, *final(self), (RV::Okay, old(self).storage.ds@.insert((db as int, k), DV::Str(v))), old(self).storage.ttl@.insert((db as int, k), num_arg::<u64>(parts@, 2)->Some_0 as int * 1_000_000))
             }),
@@ -141,7 +141,7 @@ impl Server {
     fn handle_expire(&mut self, parts: &[RespFrame], db: usize) -> (r: Result<RespFrame>)
         ensures
             (parts@.len() != 3 || arg(parts@, 1) is None || num_arg::<i64>(parts@, 2) is None) ==> refused(r, *old(self), *final(self)),
-            parts@.len() == 3 && arg(parts@, 1) is Some && num_arg::<i64>(parts@, 2) is Some && r is Ok ==> ({
+            parts@.len() == 3 && arg(parts@, 1) is Some && num_arg::<i64>(parts@, 2) is Some && (r is Ok || !mem_exhausted(old(self).storage)) ==> ({
                 let k = arg(parts@, 1)->Some_0; let s = num_arg::<i64>(parts@, 2)->Some_0;
                 let present = old(self).storage.ds@.contains_key((db as int, k));
                 if s <= 0 {
@@ -178,7 +178,7 @@ impl Server {
                 // bad option syntax, an expire time that is not a positive integer, or NX together with XX: refused
                 None => refused(r, *old(self), *final(self)),
                 Some(o) => if o.nx && o.xx { refused(r, *old(self), *final(self)) } else {
-                    r is Ok ==> ({
+                    (r is Ok || !mem_exhausted(old(self).storage)) ==> ({
                         let s = spec_set(old(self).storage.ds@, old(self).storage.ttl@, db as int, arg(parts@, 1)->Some_0, arg(parts@, 2)->Some_0, o);
                         (r matches Ok(fr) && reply_matches(fr, s.0)) && final(self).storage.ds@ == s.1 && final(self).storage.ttl@ == s.2
                     })
@@ -199,7 +199,7 @@ impl Server {
     fn handle_del(&mut self, parts: &[RespFrame], db: usize) -> (r: Result<RespFrame>)
         ensures
             parts@.len() < 2 ==> refused(r, *old(self), *final(self)),
-            parts@.len() >= 2 && r is Ok ==> ({
+            parts@.len() >= 2 && (r is Ok || !mem_exhausted(old(self).storage)) ==> ({
                 let s = del_upto(old(self).storage.ds@, old(self).storage.ttl@, db as int, parts@, parts@.len() as int);
                 r->Ok_0 == RespFrame::Integer(s.0 as i64) && final(self).storage.ds@ == s.1 && final(self).storage.ttl@ == s.2
             }),
@@ -219,7 +219,7 @@ impl Server {
     fn handle_exists(&mut self, parts: &[RespFrame], db: usize) -> (r: Result<RespFrame>)
         ensures
             parts@.len() < 2 ==> refused(r, *old(self), *final(self)),
-            parts@.len() >= 2 && r is Ok ==> final(self).storage.ds@ == old(self).storage.ds@ && final(self).storage.ttl@ == old(self).storage.ttl@
+            parts@.len() >= 2 ==> final(self).storage.ds@ == old(self).storage.ds@ && final(self).storage.ttl@ == old(self).storage.ttl@
                 && r->Ok_0 == RespFrame::Integer(exists_upto(old(self).storage.ds@, db as int, parts@, parts@.len() as int) as i64),
 //@@ body
 //@@ end
@@ -230,7 +230,7 @@ impl Server {
     fn handle_ttl(&mut self, parts: &[RespFrame], db: usize) -> (r: Result<RespFrame>)
         ensures
             (parts@.len() != 2 || arg(parts@, 1) is None) ==> refused(r, *old(self), *final(self)),
-            parts@.len() == 2 && arg(parts@, 1) is Some && r is Ok ==> ({
+            parts@.len() == 2 && arg(parts@, 1) is Some && (r is Ok || !mem_exhausted(old(self).storage)) ==> ({
                 let k = arg(parts@, 1)->Some_0;
                 &&& final(self).storage.ds@ == old(self).storage.ds@ && final(self).storage.ttl@ == old(self).storage.ttl@
                 // -2 for an absent key, -1 for a key without TTL
@@ -251,7 +251,7 @@ impl Server {
     fn handle_renamenx(&mut self, parts: &[RespFrame], db: usize) -> (r: Result<RespFrame>)
         ensures
             (parts@.len() != 3 || arg(parts@, 1) is None || arg(parts@, 2) is None) ==> refused(r, *old(self), *final(self)),
-            parts@.len() == 3 && arg(parts@, 1) is Some && arg(parts@, 2) is Some && r is Ok ==> ({
+            parts@.len() == 3 && arg(parts@, 1) is Some && arg(parts@, 2) is Some && (r is Ok || !mem_exhausted(old(self).storage)) ==> ({
                 let a = (db as int, arg(parts@, 1)->Some_0); let b = (db as int, arg(parts@, 2)->Some_0);
                 let ds = old(self).storage.ds@; let ttl = old(self).storage.ttl@;
                 if !ds.contains_key(a) { refused(r, *old(self), *final(self)) }                       // no such key
